@@ -64,42 +64,14 @@ Theorem c11_freq_wf_of_abstract :
 Proof. exact wf_of_abstract. Qed.
 
 (* non-vacuity, and the limit of the format: a well-formed sketch (map size 8, six counters, one
-   cluster wrapping around the table end) whose copy is the same finite map in a different slot
-   layout; one further update purges the original with median 4 and the copy with median 5 *)
-Definition c11_hash (k : Z) : N := match k with 1%Z => 7 | 2%Z => 7 | 3%Z => 1 | 4%Z => 2 | 5%Z => 3 | 6%Z => 4 | 7%Z => 5 | _ => 0 end.
-Definition c11_tab : list (option entry) :=
-  [Some (mkEntry 2 7 1 2); Some (mkEntry 3 1 2 1); Some (mkEntry 4 2 3 1); Some (mkEntry 5 3 4 1); Some (mkEntry 6 4 5 1);
-   None; None; Some (mkEntry 1 7 10 1)].
-Definition c11_fc : fc := mkFc 3 6 0 25 6 (mkRp 3 6 c11_tab 6).
-
+   cluster wrapping around the table end) whose copy is the same finite map ([fc_same]) in a
+   different slot layout; one further update (a seventh item) purges the original with median 4
+   and the copy with median 5 *)
 Example c11_freq_layout_not_carried :
-  fc_wf c11_hash c11_fc /\
+  fc_wf ex_hash ex_fc /\
   exists c' c1 c1' tr tr',
-    fc_deserialize (fc_serialize c11_fc) (map e_hash (active_entries (fc_map c11_fc))) = Ok c' /\
-    Permutation (kv (fc_map c')) (kv (fc_map c11_fc)) /\ rp_tab (fc_map c') <> c11_tab /\
-    fc_update c11_fc 7 (c11_hash 7) 6 = Ok (c1, tr) /\ fc_update c' 7 (c11_hash 7) 6 = Ok (c1', tr') /\
+    fc_deserialize (fc_serialize ex_fc) (map e_hash (active_entries (fc_map ex_fc))) = Ok c' /\
+    fc_same ex_hash ex_fc c' /\ rp_tab (fc_map c') <> ex_tab /\
+    fc_update ex_fc 7 (ex_hash 7) 6 = Ok (c1, tr) /\ fc_update c' 7 (ex_hash 7) 6 = Ok (c1', tr') /\
     fc_offset c1 = 4 /\ fc_offset c1' = 5.
-Proof.
-  split.
-  - constructor; cbn.
-    + lia.
-    + lia.
-    + split; [reflexivity|vm_compute; reflexivity].
-    + vm_compute. reflexivity.
-    + reflexivity.
-    + reflexivity.
-    + lia.
-    + vm_compute. reflexivity.
-    + repeat constructor; cbn; intuition congruence.
-    + repeat constructor; cbn; lia.
-    + repeat constructor; unfold i64_ok; lia.
-    + repeat constructor.
-    + unfold M64. lia.
-  - do 5 eexists. split; [vm_compute; reflexivity|].
-    split; [|split; [vm_compute; discriminate|split; [vm_compute; reflexivity|split; [vm_compute; reflexivity|split; reflexivity]]]].
-    vm_compute.
-    apply (perm_trans (l' := [(1%Z, 10); (3%Z, 2); (4%Z, 3); (5%Z, 4); (6%Z, 5); (2%Z, 1)])).
-    + constructor. apply Permutation_refl.
-    + change [(1%Z, 10); (3%Z, 2); (4%Z, 3); (5%Z, 4); (6%Z, 5); (2%Z, 1)] with ([(1%Z, 10); (3%Z, 2); (4%Z, 3); (5%Z, 4); (6%Z, 5)] ++ [(2%Z, 1)]).
-      admit.
-Abort.
+Proof. exact ex_layout_not_carried. Qed.
